@@ -18,6 +18,7 @@ fn sets(v: &Value) -> Vec<usize> {
 struct Acc {
     evals: u64,
     strict: u64,
+    exact: u64,
     bad: Vec<Value>,
 }
 
@@ -81,24 +82,41 @@ where
         draw(acc, "mid", (2.0 * k as f64 + 1.0) / (2.0 * kk), a, strict);
     }
     let mut cum = 0.0;
+    // the implementation's own running sum of the stored probabilities, in T: the variate can hit it exactly
+    let mut cum_t = T::zero();
+    let quantum = if is32 { 2f64.powi(-24) } else { 2f64.powi(-53) };
     for i in 0..w.len() {
         cum += w[i] as f64;
+        cum_t += cat0.probs[i];
         let b = sets(&c["below"][i]);
         if !b.is_empty() {
             draw(acc, "below-threshold", cum / total - margin, b, true);
             draw(acc, "above-threshold", cum / total + margin, sets(&c["above"][i]), true);
+            // exactly at the threshold (when the float cumulative sum is a representable variate), else the two
+            // variates enclosing it: either neighbour of positive probability, never a zero-probability category
+            let ct = cum_t.to_f64().unwrap();
+            if ct > 0.0 && ct < 1.0 && (ct - cum / total).abs() < margin / 4.0 {
+                let exact = (ct / quantum).fract() == 0.0;
+                draw(acc, if exact { "at-threshold" } else { "just-below-threshold" }, ct, sets(&c["at"][i]), true);
+                if !exact {
+                    draw(acc, "just-above-threshold", ct + quantum, sets(&c["at"][i]), true);
+                }
+                if exact {
+                    acc.exact += 1;
+                }
+            }
         }
     }
 }
 
 pub fn replay(args: &[String]) {
     let cases = read_ndjson(&args[0]);
-    let mut acc = Acc { evals: 0, strict: 0, bad: vec![] };
+    let mut acc = Acc { evals: 0, strict: 0, exact: 0, bad: vec![] };
     for c in &cases {
         for scale in [1.0, 0.37, 1000.0] {
             one::<f64>(c, scale, &mut acc);
             one::<f32>(c, scale, &mut acc);
         }
     }
-    println!("{}", json!({"summary": true, "cases": cases.len(), "evaluations": acc.evals, "strict": acc.strict, "bad": acc.bad}));
+    println!("{}", json!({"summary": true, "cases": cases.len(), "evaluations": acc.evals, "strict": acc.strict, "exact_thresholds": acc.exact, "bad": acc.bad}));
 }
